@@ -1,7 +1,9 @@
 package document
 
-import "github.com/gmrtd/gmrtd/document/iso19794"
+import (
+	"github.com/gmrtd/gmrtd/document/iso19794"
 	"github.com/gmrtd/gmrtd/document/iso39794"
+)
 
 // C19 — parsed attributes are exactly what the hashed bytes encode.
 // Oracle by construction: each file is BUILT from symbolic leaves with a trivial encoder over a
@@ -146,12 +148,13 @@ func verifH_C19_dg2() {
 	group := verifE(0x02, []byte{byte(k)})
 	for i := 0; i < k; i++ {
 		bdb := verifBytes(3)
-		blocks = append(blocks, bdb)
 		bht := verifE(0xA1, append(verifE(0x87, []byte{0x01, 0x01}), verifE(0x88, []byte{0x00, 0x08})...))
 		tag := 0x5F2E
 		if fmts>>uint(i)&1 == 1 {
-			tag = 0x7F2E
+			tag = 0x7F2E // constructed: the data block is itself an object
+			bdb = verifE(0x80, bdb[:1])
 		}
+		blocks = append(blocks, bdb)
 		group = append(group, verifE(0x7F60, append(bht, verifE(tag, bdb)...))...)
 	}
 	in := verifE(0x75, verifE(0x7F61, group))
